@@ -199,6 +199,14 @@ class SyncIter(Iterable):
         if self._stopped is None:
             return
         self._stopped.set()
+        q = self._q
+        while self._worker_thread.is_alive():
+            # Keep the queue drained until the worker has exited,
+            # otherwise it can block on a full queue and never see the flag.
+            try:
+                _ = q.get(timeout=0.01)
+            except queue.Empty:
+                pass
         self._worker_thread.join()
         self._stopped = None
 
@@ -454,10 +462,14 @@ class AsyncBuffer(AsyncIterable):
             return
         self._stopped.set()
         tasks = self._tasks
-        while not tasks.empty():
-            _ = tasks.get()
-        # `tasks` is now empty. The thread needs to put at most one
-        # more element into the queue, which is safe.
+        while self._worker.is_alive():
+            # The worker may still put a few more elements (the one it holds,
+            # then an end marker or an exception); keep the queue drained
+            # until it has exited, otherwise it can block on a full queue.
+            try:
+                _ = tasks.get(timeout=0.01)
+            except queue.Empty:
+                pass
         self._worker.join()
         self._stopped = None
 
